@@ -7,7 +7,7 @@ import os
 from hypothesis import strategies as st
 
 from .. import core, gen
-from ..oracle import value
+from ..oracle import nb_ref, value
 from .c16 import RefNB, ngrams, corpus_strategy
 
 RULE = ("(a) entries (text, ts, gold) built from bundled corpus / auto-corpus / dataset texts and "
@@ -156,7 +156,7 @@ def check_run_corpus(lines):
         if not first:
             continue
         tv = value(first[k % len(first)].resolution)
-        target = first[k % len(first)].resolution.nb_str()
+        target = nb_ref(tv)  # written the way the bundled corpora write annotations, not with the library's printer
         ok_texts = []
         for t in texts:
             e, ncand, npos = expected_samples(t, ts, tv, S.DummyScorer(), 0)
@@ -201,6 +201,9 @@ def all_texts():
             out.append(("auto_corpus", t, dt.datetime.strptime(ts, "%Y-%m-%dT%H:%M"), None))
     for e in C.load_timeparse_corpus(os.path.join(core.REPO, "datasets", "timeparse_corpus.json")):
         out.append(("dataset", e.text, e.ts, e.gold))
+    for t in ["monday morning", "Montagmorgen", "monday", "montag früh", "sunday", "sonntag abend", "mon", "tuesday noon",
+              "morning", "monday 8:00", "january", "1st", "midnight", "0:00", "0:05 monday", "montag 0 uhr"]:
+        out.append(("grammar-duration", t, dt.datetime(2020, 3, 4, 12, 0), None))
     for t in ["2 days", "for 3 weeks", "eine nacht", "tomorrow for 2 days", "half an hour", "3 nächte",
               "5.10.2020 for 1 month", "two hours", "14 tage", "30 minutes", "1 night 5.10. - 6.10.2020"]:
         out.append(("grammar-duration", t, dt.datetime(2020, 3, 4, 12, 0), None))
@@ -297,6 +300,12 @@ def _shard_rc(arg):
         for b, d in fails:
             acc.fail(b, case, d)
 
+    if shard == 0:
+        # every hand-written grammar text once per candidate index (deterministic part)
+        for idx, t in enumerate(texts):
+            if t[0] == "grammar-duration":
+                for k in range(6):
+                    body([(idx, k, False)])
     strat = st.lists(st.tuples(st.integers(0, 10 ** 6), st.integers(0, 20), st.booleans()), min_size=1, max_size=3)
     core.hyp_run(strat, body, n, core.shard_seed(seed, shard, 5))
     return acc
